@@ -45,7 +45,20 @@ type c14StrErr string
 
 func (e c14StrErr) Error() string { return "boom-strerr:" + string(e) }
 
-var c14Shapes = []string{"string", "[]byte", "error", "(int,string)/fast", "(int,string)/reflect", "(int,[]byte)", "(int,error)", "(string,error)", "([]byte,error)", "*string", "*[]byte"}
+var c14Shapes = []string{"string", "[]byte", "error", "(int,string)/fast", "(int,string)/reflect", "(int,[]byte)", "(int,error)", "(string,error)", "([]byte,error)", "*string", "*[]byte",
+	// named string and byte-slice types that carry a String() method (and, the string one, a Format method): the
+	// value is the body, not what its methods would print
+	"Stringer-string", "(int,Stringer-string)", "(Stringer-string,error)", "Stringer-[]byte"}
+
+type c14Token string
+
+func (c14Token) String() string { return "[String() of the value]" }
+
+func (c14Token) Format(f fmt.State, verb rune) { _, _ = f.Write([]byte("[Format() of the value]")) }
+
+type c14Blob []byte
+
+func (c14Blob) String() string { return "[String() of the value]" }
 
 type c14Vals struct {
 	S    string `json:"string"`
@@ -136,6 +149,14 @@ func (w *c14World) handler(shape string) flamego.Handler {
 		return func() (int, error) { return w.v.Code, w.err() }
 	case "(string,error)":
 		return func() (string, error) { return w.v.S, w.err() }
+	case "Stringer-string":
+		return func() c14Token { return c14Token(w.v.S) }
+	case "(int,Stringer-string)":
+		return func() (int, c14Token) { return w.v.Code, c14Token(w.v.S) }
+	case "(Stringer-string,error)":
+		return func() (c14Token, error) { return c14Token(w.v.S), w.err() }
+	case "Stringer-[]byte":
+		return func() c14Blob { return c14Blob(w.bytes()) }
 	case "([]byte,error)":
 		return func() ([]byte, error) { return w.bytes(), w.err() }
 	case "*string":
@@ -231,16 +252,16 @@ func c14Table(shape string, v c14Vals, errv error, b []byte) c14Expect {
 		return c14Expect{Defined: true, Wrote: true, Status: 500, Body: e.Error()}
 	}
 	switch shape {
-	case "string":
+	case "string", "Stringer-string":
 		return body(v.S)
-	case "[]byte":
+	case "[]byte", "Stringer-[]byte":
 		return body(string(b))
 	case "error":
 		if errv == nil {
 			return c14Expect{Defined: true}
 		}
 		return fail(errv)
-	case "(int,string)/fast", "(int,string)/reflect":
+	case "(int,string)/fast", "(int,string)/reflect", "(int,Stringer-string)":
 		return c14Expect{Defined: true, Wrote: true, Status: v.Code, Body: v.S}
 	case "(int,[]byte)":
 		return c14Expect{Defined: true, Wrote: true, Status: v.Code, Body: string(b)}
@@ -249,7 +270,7 @@ func c14Table(shape string, v c14Vals, errv error, b []byte) c14Expect {
 			return c14Expect{Defined: true, Wrote: true, Status: v.Code}
 		}
 		return c14Expect{Defined: true, Wrote: true, Status: v.Code, Body: errv.Error()}
-	case "(string,error)":
+	case "(string,error)", "(Stringer-string,error)":
 		if errv != nil {
 			return fail(errv)
 		}
